@@ -203,6 +203,14 @@ func oracleC20(p *plan.Plan, his []plan.Rec, res *plan.Result) {
 			if t[0] < live || t[0] > live+dead {
 				viol(res, "inuse-accounting", "primary", "%s: primary fragments report %d B in use, the live entries amount to %d B (%d keys) plus at most %d B of expired entries not evicted yet (allocated %d, garbage %d) [%s]", tag, t[0], live, liveKeys, dead, t[1], t[2], p.Variant)
 			}
+			if tag == "settled2" && t[3] > liveKeys && t[3] <= liveKeys+deadKeys {
+				// 40 simulated seconds = 400 eviction rounds have passed: expired entries should be gone
+				subj := "few-keys"
+				if t[3] > 19 {
+					subj = "more-than-19-keys"
+				}
+				viol(res, "expired-entries-not-reclaimed", subj, "%d expired entries are still stored 40 s after the churn ended (%d keys stored, %d live) [%s]", t[3]-liveKeys, t[3], liveKeys, p.Variant)
+			}
 			if t[3] < liveKeys || t[3] > liveKeys+deadKeys {
 				viol(res, "length-accounting", "primary", "%s: primary fragments report %d keys, %d are live and %d expired [%s]", tag, t[3], liveKeys, deadKeys, p.Variant)
 			}
